@@ -133,6 +133,12 @@ def run_direct(case, res):
     for k in range(case["start"], case["start"] + case["count"]):
         rng = engine.rng_for(case["seed"], NUM, k)
         xopt, g, H, sl, su, delta, hk = gen_input(rng)
+        if k % 11 == 7:
+            # the same geometry around an integer-typed current point (np.array([0, 2, -1])): a legitimate spelling of the argument
+            shift = xopt - np.rint(xopt)
+            sl, su = sl - shift, su - shift
+            xopt = np.rint(xopt).astype(np.int64)
+            st["direct_calls_integer_typed_xopt"] = st.get("direct_calls_integer_typed_xopt", 0) + 1
         contracts.drain()
         try:
             d, gnew, crvmin = f(xopt, g, H, sl, su, delta)
